@@ -90,6 +90,14 @@ def materialise(plan, opt, rng, work, fmt="json"):
         objs = [sample(sid, rng) for sid in a["ids"]]
         lookup = "-"
         data = None
+        if kind == "noglob":
+            # a pattern in an existing directory that matches no file
+            d = os.path.join(work, "g%d" % i)
+            os.makedirs(d)
+            contents[i] = (kind, [])
+            pat = os.path.join(d, rng.choice(["*.none", "no_such_*.%s" % fmt, "?"]))
+            argv += ["-m", a["model"], pat] if a["flag"] == "m" else ["-l", a["model"], "-", pat]
+            continue
         if kind == "glob" and not a.get("alias"):
             # a directory with two files, one object each, named by a pattern
             d = os.path.join(work, "g%d" % i)
@@ -367,7 +375,7 @@ def run_plan(plan, opt, rng, fmt="json", sub=False):
     old_argv, old_path, old_cwd = sys.argv, list(sys.path), os.getcwd()
     if any(a["kind"] == "nonstrkey" for a in plan["args"]):
         fmt = "yaml"        # only a YAML document can carry non-string keys
-    if fmt == "ini" and not all(a["kind"] in ("object", "lookup", "malformed", "badlookup", "missing", "scalar") and not a.get("share") for a in plan["args"]):
+    if fmt == "ini" and not all(a["kind"] in ("object", "lookup", "malformed", "badlookup", "missing", "scalar", "noglob") and not a.get("share") for a in plan["args"]):
         fmt = "json"        # an ini file holds exactly one object of string values
     try:
         argv, path_index, per_model, out_path = materialise(plan, opt, rng, work, fmt)
